@@ -1,8 +1,23 @@
 """Reaching definitions on the CFG, alias look-through and canonical expressions."""
 import ast
-import copy
 
 from mmsa.core import norm, walk_no_nested
+
+
+def clone(node):
+  """Deep copy of an AST subtree that does not follow the `_parent` back links."""
+  if isinstance(node, ast.AST):
+    new = type(node)()
+    for f in node._fields:
+      if hasattr(node, f):
+        setattr(new, f, clone(getattr(node, f)))
+    for a in ('lineno', 'col_offset', 'end_lineno', 'end_col_offset'):
+      if hasattr(node, a):
+        setattr(new, a, getattr(node, a))
+    return new
+  if isinstance(node, list):
+    return [clone(x) for x in node]
+  return node
 
 
 class Def:
@@ -146,7 +161,7 @@ class Reaching:
           return e
         d = rd.single_def(at, e.id)
         if d is not None and d.how == 'assign' and d.value is not None and depth > 0:
-          return sub(copy.deepcopy(d.value), d.node, depth - 1)
+          return sub(clone(d.value), d.node, depth - 1)
         ds = rd.defs_at(at, e.id)
         if ds:
           free[e.id] = free.get(e.id, frozenset()) | frozenset(x.node.id for x in ds)
@@ -163,7 +178,7 @@ class Reaching:
         return _map_children(e, lambda c: c if (isinstance(c, ast.Name) and c.id in bound) else sub(c, at, depth))
       return _map_children(e, lambda c: sub(c, at, depth))
 
-    out = sub(copy.deepcopy(expr), node, depth)
+    out = sub(clone(expr), node, depth)
     return out, free
 
   def canon(self, node, expr, keep=()):
